@@ -64,7 +64,7 @@ func (fc *FnCtx) execInstr(fr *frame, st *State, in ssa.Instruction, b *ssa.Basi
 		et := x.Type().Underlying().(*types.Slice).Elem()
 		arr := fc.newRef(st)
 		k := fc.elemKey(et)
-		zeroArr := fmt.Sprintf("((as const (Array Int %s)) %s)", fc.sorts.SortOf(et), fc.sorts.Zero(et))
+		zeroArr := fc.sorts.ZeroArr(et)
 		st.heap[k] = fc.sc.Define(fc.hv[k].name, fc.hv[k].sort, app("store", fc.heapGet(st, k), arr, zeroArr))
 		fc.regs[x] = fc.mkVal(app("mk_slice", arr, "0", ln.T, cp.T), x.Type())
 	case *ssa.MakeMap:
@@ -222,7 +222,7 @@ func (fc *FnCtx) execAlloc(st *State, x *ssa.Alloc) {
 	case *types.Array:
 		arr := fc.newRef(st)
 		k := fc.elemKey(u.Elem())
-		zeroArr := fmt.Sprintf("((as const (Array Int %s)) %s)", fc.sorts.SortOf(u.Elem()), fc.sorts.Zero(u.Elem()))
+		zeroArr := fc.sorts.ZeroArr(u.Elem())
 		st.heap[k] = fc.sc.Define(fc.hv[k].name, fc.hv[k].sort, app("store", fc.heapGet(st, k), arr, zeroArr))
 		// pointer to array: represented by the array id
 		v := fc.mkVal(arr, x.Type())
@@ -263,6 +263,37 @@ func (fc *FnCtx) execStore(st *State, x *ssa.Store) {
 	}
 	fc.guardCheck(st, a, true, x.Pos())
 	fc.store(st, a, vt)
+	fc.assumeAfter(st, a)
+}
+
+// assumeAfter applies `assume_after <local>: E` clauses: a labelled, unproved fact about a local,
+// taken as given right after the local is assigned (bounded stand-ins; always listed in the evidence).
+func (fc *FnCtx) assumeAfter(st *State, a *Addr) {
+	if a.Kind != aLocal || len(a.Path) != 0 {
+		return
+	}
+	con := fc.eng.contracts[fc.eng.fnName(fc.curFn)]
+	if con == nil {
+		return
+	}
+	for _, c := range con.Extra["assume_after"] {
+		i := strings.Index(c.Text, ":")
+		if i < 0 || strings.TrimSpace(c.Text[:i]) != a.Alloc.Comment {
+			continue
+		}
+		ex, err := parseSpecExpr(c.Text[i+1:])
+		if err != nil {
+			fc.errorf("assume_after: %v", err)
+			continue
+		}
+		env := &specEnv{fc: fc, st: st, old: fc.entry, vars: map[string]Val{}, entry: fc.params, localFn: fc.curFn, at: a.Alloc.Block()}
+		if fc.curFn.Pkg != nil {
+			env.pkg = fc.curFn.Pkg.Pkg
+		}
+		env.at = nil
+		fc.assume(st, fc.evalBool(env, &Clause{Text: c.Text[i+1:], Expr: ex, Pos: c.Pos}))
+		fc.note("ASSUMED (not proved) after assignment of %s: %s", a.Alloc.Comment, strings.TrimSpace(c.Text[i+1:]))
+	}
 }
 
 func (fc *FnCtx) frameCheckObj(st *State, ref string, ty types.Type, pos token.Pos) {}
@@ -387,13 +418,18 @@ func (fc *FnCtx) execBinOp(st *State, op token.Token, a, b Val, ty types.Type, p
 		}
 		fc.oblige(st, "divzero", not(eq(bt, "0")), pos, "division by zero")
 		// Go truncates toward zero
-		q := ite(app(">=", at, "0"), ite(app(">", bt, "0"), app("div", at, bt), app("-", app("div", at, app("-", bt)))),
-			ite(app(">", bt, "0"), app("-", app("div", app("-", at), bt)), app("div", app("-", at), app("-", bt))))
+		if !isNumeral(bt) || bt == "0" {
+			// variable divisor: the quotient is an uninterpreted function with its bounds (prelude)
+			return fc.wrap(app("goquo", at, bt), ty)
+		}
+		q := ite(app(">=", at, "0"), app("div", at, bt), app("-", app("div", app("-", at), bt)))
 		return fc.wrap(q, ty)
 	case token.REM:
 		fc.oblige(st, "divzero", not(eq(bt, "0")), pos, "modulo by zero")
-		absb := ite(app(">", bt, "0"), bt, app("-", bt))
-		r := ite(app(">=", at, "0"), app("mod", at, absb), app("-", app("mod", app("-", at), absb)))
+		if !isNumeral(bt) || bt == "0" {
+			return fc.mkVal(app("gorem", at, bt), ty)
+		}
+		r := ite(app(">=", at, "0"), app("mod", at, bt), app("-", app("mod", app("-", at), bt)))
 		return fc.mkVal(r, ty)
 	case token.SHR:
 		if isNumeral(bt) {
